@@ -182,13 +182,15 @@ type gPipe struct {
 	ExpE1   bool     `json:"exp_e1"`
 	ExpE2   bool     `json:"exp_e2"`
 	ExpC    bool     `json:"exp_connector"`
+	ConnFirst    bool `json:"connector_listed_first_in_receivers,omitempty"`
+	ConnFirstExp bool `json:"connector_listed_first_in_exporters,omitempty"`
 }
 
 type gCfg [3]gPipe
 
 var gPids = []pipeline.ID{pipeline.NewID(pipeline.SignalTraces), pipeline.NewIDWithName(pipeline.SignalTraces, "b"), pipeline.NewID(pipeline.SignalLogs)}
 
-func gOptions(withE2 bool) []gPipe {
+func gOptions(withE2, expOrder bool) []gPipe {
 	out := []gPipe{{}}
 	procs := [][]string{nil, {"p1"}, {"p1", "p2"}, {"p2", "p1"}}
 	for _, r := range [][2]bool{{true, false}, {false, true}, {true, true}} {
@@ -197,7 +199,14 @@ func gOptions(withE2 bool) []gPipe {
 				continue
 			}
 			for _, p := range procs {
-				out = append(out, gPipe{true, r[0], r[1], p, e&1 != 0, e&2 != 0, e&4 != 0})
+				out = append(out, gPipe{Present: true, RecvR: r[0], RecvC: r[1], Procs: p, ExpE1: e&1 != 0, ExpE2: e&2 != 0, ExpC: e&4 != 0})
+				// the position of the connector inside the receivers / exporters list (lists are ordered in the configuration)
+				if r[0] && r[1] {
+					out = append(out, gPipe{Present: true, RecvR: true, RecvC: true, Procs: p, ExpE1: e&1 != 0, ExpE2: e&2 != 0, ExpC: e&4 != 0, ConnFirst: true})
+				}
+				if expOrder && e&4 != 0 && e&3 != 0 {
+					out = append(out, gPipe{Present: true, RecvR: r[0], RecvC: r[1], Procs: p, ExpE1: e&1 != 0, ExpE2: e&2 != 0, ExpC: true, ConnFirstExp: true})
+				}
 			}
 		}
 	}
@@ -233,11 +242,17 @@ func gBuild(cfg gCfg, mode string) (*Graph, error) {
 			continue
 		}
 		x := &pipelines.PipelineConfig{}
+		if p.RecvC && p.ConnFirst {
+			x.Receivers = append(x.Receivers, gID("c"))
+		}
 		if p.RecvR {
 			x.Receivers = append(x.Receivers, gID("r1"))
 		}
-		if p.RecvC {
+		if p.RecvC && !p.ConnFirst {
 			x.Receivers = append(x.Receivers, gID("c"))
+		}
+		if p.ExpC && p.ConnFirstExp {
+			x.Exporters = append(x.Exporters, gID("c"))
 		}
 		for _, pr := range p.Procs {
 			x.Processors = append(x.Processors, gProcID(mode, i, pr))
@@ -248,7 +263,7 @@ func gBuild(cfg gCfg, mode string) (*Graph, error) {
 		if p.ExpE2 {
 			x.Exporters = append(x.Exporters, gID("e2"))
 		}
-		if p.ExpC {
+		if p.ExpC && !p.ConnFirstExp {
 			x.Exporters = append(x.Exporters, gID("c"))
 		}
 		pc[gPids[i]] = x
@@ -596,7 +611,7 @@ func TestVerif(t *testing.T) {
 		}
 		return
 	}
-	opts := gOptions(ctx.Param("e2", 0) == 1)
+	opts := gOptions(ctx.Param("e2", 0) == 1, ctx.Param("exp_order", 0) == 1)
 	ctx.R.Extra["pipeline_options"] = len(opts)
 	var n int64
 	pairs := ctx.Param("pairs", 0) == 1
